@@ -51,7 +51,8 @@ class Program:
         self.bodies = bodies
         self.src_root = src_root
         self.enums = dict(STD_ENUMS)
-        self.impl_index = {}     # (selfty, trait or None, method) -> body name
+        self.impl_index = {}     # (selfty, trait or None, method) -> body name (first one)
+        self.impl_all = {}       # same key -> every body name (colliding From impls etc.)
         self.free_index = {}     # last segment -> [body names]
         self.closure_index = {}  # '{closure@span}' / '{coroutine@span}' key -> body name
         self.statics = {}        # name -> body
@@ -146,6 +147,7 @@ class Program:
                 selfty, trait = self._impl_header(m.group(2))
                 self.impl_index.setdefault((selfty, trait, m.group(3)), name)
                 self.impl_index.setdefault((selfty, "*", m.group(3)), name)
+                self.impl_all.setdefault((selfty, trait, m.group(3)), []).append(name)
             elif not m:
                 last = name.split("::")[-1]
                 if not last.startswith("{"):
@@ -177,7 +179,7 @@ class Program:
 def type_head(t):
     """'actor_ref::ActorRef<T>' -> 'ActorRef' ; '&mut Foo<..>' -> 'Foo'"""
     t = t.strip()
-    t = re.sub(r"^(&'?\w*\s*(mut\s+)?|\*const\s+|\*mut\s+)", "", t)
+    t = re.sub(r"^(&('\w+\s+)?(mut\s+)?|\*const\s+|\*mut\s+)", "", t)
     t = re.sub(r"^dyn\s+", "dyn ", t)
     m = re.match(r"^(dyn )?([\w:]+)", t)
     if not m:
